@@ -141,6 +141,12 @@ impl Sample {
             AxisType::Col => id.row_index(),
         };
 
+        // and that position must exist in the square, the proof alone cannot tell that,
+        // as the tree it is checked against doesn't have to be perfect
+        if index >= dah.square_width() {
+            return Err(Error::EdsIndexOutOfRange(id.row_index(), id.column_index()));
+        }
+
         if self.proof.start_idx() != u32::from(index)
             || self.proof.end_idx() != u32::from(index) + 1
         {
